@@ -2,6 +2,8 @@ package participle
 
 import (
 	"fmt"
+	"hash/fnv"
+	"reflect"
 	"strings"
 )
 
@@ -10,6 +12,19 @@ import (
 // Productions are always upper cased. Lexer tokens are always lower case.
 func (p *Parser[G]) String() string {
 	return ebnf(p.typeNodes[p.rootType])
+}
+
+// ebnfTypeName returns the production name for a Go type.
+//
+// Anonymous struct types have no name; they get a stable synthetic one.
+func ebnfTypeName(t reflect.Type) string {
+	name := t.Name()
+	if name == "" {
+		h := fnv.New32a()
+		_, _ = h.Write([]byte(t.String()))
+		return fmt.Sprintf("Anon%08x", h.Sum32())
+	}
+	return strings.ToUpper(name[:1]) + name[1:]
 }
 
 type ebnfp struct {
@@ -52,7 +67,7 @@ func buildEBNF(root bool, n node, seen map[node]bool, p *ebnfp, outp *[]*ebnfp) 
 		}
 
 	case *union:
-		name := strings.ToUpper(n.typ.Name()[:1]) + n.typ.Name()[1:]
+		name := ebnfTypeName(n.typ)
 		if p != nil {
 			p.out += name
 		}
@@ -70,11 +85,11 @@ func buildEBNF(root bool, n node, seen map[node]bool, p *ebnfp, outp *[]*ebnfp) 
 		}
 
 	case *custom:
-		name := strings.ToUpper(n.typ.Name()[:1]) + n.typ.Name()[1:]
+		name := ebnfTypeName(n.typ)
 		p.out += name
 
 	case *strct:
-		name := strings.ToUpper(n.typ.Name()[:1]) + n.typ.Name()[1:]
+		name := ebnfTypeName(n.typ)
 		if p != nil {
 			p.out += name
 		}
